@@ -1832,6 +1832,11 @@ class Analyzer:
             tmp = env.get('$tmp') or {}
             va = tmp.get(a) if a in tmp else self.peek(env, a)
             vb = tmp.get(b) if b in tmp else self.peek(env, b)
+            # a strict comparison of two ranges that cannot satisfy it (floating values have no "minus one": the interval
+            # restriction below keeps the touching endpoint, so the edge has to be cut here)
+            if op in ('<', '>') and not va.is_bottom() and not vb.is_bottom():
+                if (op == '<' and va.lo >= vb.hi) or (op == '>' and va.hi <= vb.lo):
+                    return None
             # |x| < c, |x| <= c: x lies in [-c, c]
             for side, other, o in ((a, vb, op), (b, va, {'<': '>', '<=': '>=', '>': '<', '>=': '<='}.get(op, op))):
                 sn = self.ex[self.F.strip_casts(side)]
